@@ -46,10 +46,20 @@ def pick_slicing(rng, size):
         return "a"
     if r < 0.45:
         return "f:%d" % rng.choice((lo, lo * 3, 4096, 16384, 65536))
+    if r < 0.52 and size < 60000:
+        return rng.choice(("f:1", "r:1", "r:2"))
     return "r:%d" % rng.choice((lo * 2, lo * 7, 1000 + lo, 20000, 70000))
 
 
-def gen_case(rng, e, idx, real=False):
+def pick_in_slicing(rng, size):
+    """Input slicing: additionally the pause/poll pattern (chunks, then a window fed one byte at a time with a zero-length
+    poll call after every byte; the window is at the end of the input half of the time)."""
+    if rng.random() < 0.18:
+        return "p:%d" % rng.choice((max(1, size // 1500), 512, 4096, 30000))
+    return pick_slicing(rng, size)
+
+
+def gen_case(rng, e, idx, real=False, pre_pool=None):
     p = {}
     p["file"] = e["path"]
     p["threads"] = rng.choice((1, 2, 2, 3, 3, 4, 4, 5, 6, 7, 8))
@@ -68,13 +78,17 @@ def gen_case(rng, e, idx, real=False):
     if failfast:
         flags |= F_FAILFAST
     p["flags"] = flags
-    p["in"] = pick_slicing(rng, e["size"])
+    p["in"] = pick_in_slicing(rng, e["size"])
     p["out"] = pick_slicing(rng, max(e.get("usize", 0) or 0, e["size"] * 3))
     p["fin"] = 1 if (flags & F_CONCAT) or rng.random() < 0.7 else 0
     p["slice"] = rng.randrange(1, 1 << 30)
     p["endat"] = rng.randrange(0, 40) if rng.random() < 0.1 else -1
     p["prog"] = 1 if rng.random() < 0.3 else 0
     p["maxcalls"] = 400000
+    if pre_pool and rng.random() < 0.08:
+        # abandon a decode of another file on the same handle, then re-initialise with the same thread count
+        p["pre"] = rng.choice(pre_pool)["path"]
+        p["precalls"] = rng.randrange(1, 25)
     if real:
         p["mode"] = "real"
         p["jitter"] = rng.choice((0, 20, 80, 200))
@@ -361,7 +375,7 @@ def run(ctx):
     pools = pools_of(entries)
     for i in range(ncases):
         e = rng.choice(pools[pick_pool(rng, pools)])
-        cases.append((e, gen_case(rng, e, i)))
+        cases.append((e, gen_case(rng, e, i, pre_pool=pools["valid-sized"])))
     bad_total = run_cases(ctx, exe, cases, "controlled", model_ok=drv_ok)
     # ---- K2 (thorough): real scheduling under ThreadSanitizer
     if not quick:
@@ -370,7 +384,7 @@ def run(ctx):
             tcases = []
             for i in range(4000):
                 e = rng.choice(pools[pick_pool(rng, pools)])
-                tcases.append((e, gen_case(rng, e, i, real=True)))
+                tcases.append((e, gen_case(rng, e, i, real=True, pre_pool=pools["valid-sized"])))
             run_cases(ctx, texe, tcases, "tsan-real", model_ok=False, tsan=True)
     return "proof"
 
